@@ -952,6 +952,12 @@ class Segment(Geodesic):
         base_ring = utils.guess_literal_ring(end_data)
         dim = end_data.shape[-1]
 
+        # the endpoints are only defined up to scale: work with the
+        # representatives whose first coordinate is 1, so that the
+        # difference of the endpoints is spacelike and the quadratic
+        # below never degenerates
+        end_data = end_data / end_data[..., :1]
+
         products = end_data @ minkowski(
             dim, base_ring=base_ring
         ) @ end_data.swapaxes(-1, -2)
